@@ -189,9 +189,9 @@ func coqMethod(m methodObs) string {
 
 func kindOfTypeString(t string) string {
 	switch {
-	case t == "bool":
+	case t == "bool" || strings.HasSuffix(t, ".Flag"):
 		return "bool"
-	case t == "string":
+	case t == "string" || strings.HasSuffix(t, ".Token"):
 		return "string"
 	default:
 		return "number" // the synthesiser only produces integer-backed query parameter types besides bool and string
